@@ -65,7 +65,7 @@ def check(chk, c, rule, funcs, classes=None, what='refusal'):
             construct = '%s: %s %s' % (fq, 'raises' if cls != 'return False' else 'returns', cls if cls != 'return False' else 'False')
             key = '%s|%s|%s' % (rule, fq, cls)
             if fi is None:
-                chk.info('%s: %s no longer exists (renamed / moved): its refusals were not compared' % (rule, fq))
+                chk.info('%s: %s no longer exists (renamed / moved / now inherited): its refusals were not compared' % (rule, fq))
                 continue
             loc = fi.loc
             cu = cur.get(fq, {}).get(cls)
